@@ -1210,7 +1210,8 @@ func directed(c *drv.Ctx, w *drv.Worker, final depth) error {
 
 func run(c *drv.Ctx) error {
 	c.Rule("random legal interleavings of put / batch put / delete / DeleteRange / commit / newversion / branch / merge on a versioned keyvalue instance " +
-		"(neighbour instances with instance id -1 and +1 hold the same key names; a versioned=false instance and an instance used only through an unversioned storage context run alongside); " +
+		"(neighbour instances with instance id -1 and +1 hold the same key names; a versioned=false instance and an instance used only through an unversioned storage context run alongside), " +
+		"plus one directed history whose merge node holds an unresolved conflict inside the scanned interval (regression for swallowed scan errors); " +
 		"a case is one (history state, instance, version, interval [lo,hi]) evaluated by every consumer (storage API GetRange/KeysInRange/SendKeysInRange/ProcessRange, " +
 		"HTTP keys/keyrange/keyrangevalues json,tar,protobuf) against the individual reads and the versioned-map model, or one DeleteRange call; interval ends range over all keys of a prefix-related " +
 		"universe plus non-key strings, incl. lo>hi, single-key and whole-class intervals; " +
